@@ -68,9 +68,18 @@ func (s *copyService) Handle(ctx context.Context, conn net.Conn) error {
 		// one datagram in, one reply out (a datagram connection never reports EOF)
 		buff := make([]byte, 65535)
 
-		n, err := conn.Read(buff)
-		if err != nil {
-			return err
+		// the datagram may come in more than one Read (behind the server's peek wrapper the first
+		// Read returns only what was peeked): read until the datagram connection reports its end
+		n := 0
+		for n < len(buff) {
+			k, err := conn.Read(buff[n:])
+			n += k
+			if err != nil {
+				break
+			}
+		}
+		if n == 0 {
+			return io.ErrUnexpectedEOF
 		}
 
 		conn2, err := s.d.Dial(conn)
